@@ -185,9 +185,9 @@ func (s *sshProxyService) Handle(ctx context.Context, conn net.Conn) error {
 			event.Custom("ssh.channel-type", newChannel.ChannelType()),
 		))
 
+		// requests are relayed as they come; closing a channel is left to the data path below,
+		// which knows when everything has been copied
 		requestFn := func(in <-chan *ssh.Request, dst ssh.Channel) {
-			defer dst.Close()
-
 			for req := range in {
 				log.Debugf("Request: %s %s %s %s\n", dst, req.Type, req.WantReply, req.Payload)
 
@@ -241,26 +241,50 @@ func (s *sshProxyService) Handle(ctx context.Context, conn net.Conn) error {
 			}
 		}
 
-		go requestFn(requests, channel2)
-		go requestFn(requests2, channel)
+		// the request stream of a side ends when that side closes its channel
+		clientClosed := make(chan struct{})
+		backendClosed := make(chan struct{})
 
-		copyFn := func(dst io.ReadWriteCloser, src io.ReadCloser) {
-			_, err := io.Copy(dst, src)
-			if err == io.EOF {
-			} else if err != nil {
-				log.Error(err.Error())
-			}
+		go func() {
+			requestFn(requests, channel2)
+			close(clientClosed)
+		}()
 
-			dst.Close()
-		}
+		go func() {
+			requestFn(requests2, channel)
+			close(backendClosed)
+		}()
 
 		var wrappedChannel io.ReadCloser = channel
 
 		twrc := NewTypeWriterReadCloser(channel2)
 		var wrappedChannel2 io.ReadCloser = twrc
 
-		go copyFn(channel2, wrappedChannel)
-		copyFn(channel, wrappedChannel2)
+		go func() {
+			// the client has finished sending: pass the end of its stream on, the backend may
+			// still have to answer (closing the backend channel here would cut its reply)
+			if _, err := io.Copy(channel2, wrappedChannel); err != nil && err != io.EOF {
+				log.Error(err.Error())
+			}
+
+			channel2.CloseWrite()
+		}()
+
+		// everything the backend writes, then its end of stream; the channels are closed
+		// once one side has closed its own (after its last request, e.g. exit-status)
+		if _, err := io.Copy(channel, wrappedChannel2); err != nil && err != io.EOF {
+			log.Error(err.Error())
+		}
+
+		channel.CloseWrite()
+
+		select {
+		case <-backendClosed:
+		case <-clientClosed:
+		}
+
+		channel.Close()
+		channel2.Close()
 
 		s.c.Send(event.New(
 			services.EventOptions,
